@@ -199,6 +199,88 @@ pub fn run(ctx: &mut Ctx) {
         }
     });
 
+    // a well-formed record followed by a COMPLETE handshake record whose message is cut short or structurally
+    // invalid: every handshake type 0..=25 (and some unassigned ones) x bodies that start with each version family's
+    // bytes x every body length 0..=40. Whatever the single-record parser says about the second record (any error
+    // class), the many-parsers return the first record and leave the remainder at the second
+    ctx.floor("bad-later.cases", 20_000);
+    ctx.sweep("bad-later-handshake-record", 32, |ctx, idx| {
+        let ty = [0u8, 1, 2, 3, 4, 5, 6, 8, 11, 12, 13, 14, 15, 16, 20, 21, 22, 23, 24, 25, 67, 254, 7, 9, 10, 17, 18, 19, 26, 60, 128, 255][idx as usize];
+        let mut r = crate::rng::Rng::new(idx ^ 0xBAD1A7E);
+        let first_tls = refenc::record(0x16, 0x0303, &AHs::HelloRequest.to_bytes());
+        let first_dtls = refenc::dtls_record(&gen::dtls_hdr(&mut r, 0x14), &[1]);
+        for ver in [[3u8, 0], [3, 1], [3, 2], [3, 3], [3, 4], [0x7f, 0x12], [0x7f, 0x1c], [0xfe, 0xfd], [0xfe, 0xff], [0, 0], [0xff, 0xff], [r.u8(), r.u8()]] {
+            for bl in 0..=40usize {
+                let mut body = ver.to_vec();
+                body.extend(r.bytes(40));
+                body.truncate(bl);
+                // TLS
+                let mut w = W::new();
+                w.u8(ty);
+                w.u24(bl as u32);
+                w.bytes(&body);
+                let mut buf = first_tls.clone();
+                let l1 = buf.len();
+                buf.extend(refenc::record(0x16, 0x0303, &w.b));
+                if bl % 2 == 1 {
+                    buf.extend(refenc::record(0x14, 0x0303, &[1]));
+                }
+                ctx.eval();
+                ctx.count("bad-later.cases");
+                let second_ok = parse_tls_plaintext(&buf[l1..]).is_ok();
+                let many = tls_parser_many(&buf);
+                let good = match &many {
+                    Ok((rem, v)) => {
+                        if second_ok {
+                            v.len() >= 2
+                        } else {
+                            v.len() == 1 && rem.len() == buf.len() - l1 && rem.as_ptr() == buf[l1..].as_ptr()
+                        }
+                    }
+                    Err(_) => false,
+                };
+                if !good {
+                    ctx.violation(
+                        "c16:tls_parser_many:bad-later-record-changes-the-answer".into(),
+                        json!({"handshake_type": ty, "body_len": bl, "second_record_alone": classify(&parse_tls_plaintext(&buf[l1..])).show(), "many": classify(&many).show(), "many_records": many.as_ref().ok().map(|x| x.1.len()), "input_hex": hex_short(&buf)}),
+                    );
+                }
+                // DTLS (12-byte handshake header, whole message)
+                let mut w = W::new();
+                w.u8(ty);
+                w.u24(bl as u32);
+                w.u16(1);
+                w.u24(0);
+                w.u24(bl as u32);
+                w.bytes(&body);
+                let mut buf = first_dtls.clone();
+                let l1 = buf.len();
+                buf.extend(refenc::dtls_record(&gen::dtls_hdr(&mut r, 0x16), &w.b));
+                ctx.eval();
+                ctx.count("bad-later.cases");
+                let second_ok = parse_dtls_plaintext_record(&buf[l1..]).is_ok();
+                let many = parse_dtls_plaintext_records(&buf);
+                let good = match &many {
+                    Ok((rem, v)) => {
+                        if second_ok {
+                            v.len() == 2 && rem.is_empty()
+                        } else {
+                            v.len() == 1 && rem.len() == buf.len() - l1 && rem.as_ptr() == buf[l1..].as_ptr()
+                        }
+                    }
+                    Err(_) => false,
+                };
+                if !good {
+                    ctx.violation(
+                        "c16:parse_dtls_plaintext_records:bad-later-record-changes-the-answer".into(),
+                        json!({"handshake_type": ty, "body_len": bl, "second_record_alone": classify(&parse_dtls_plaintext_record(&buf[l1..])).show(), "many": classify(&many).show(), "many_records": many.as_ref().ok().map(|x| x.1.len()), "input_hex": hex_short(&buf)}),
+                    );
+                }
+            }
+        }
+        ctx.shape(&("bad-later", ty));
+    });
+
     // buffers whose absolute sizes coincide with powers of two: the bytes after the first record / after the
     // first header / the whole buffer are exact multiples of 65536 (length arithmetic in narrower integer types)
     ctx.sweep("size-coincidences", 48, |ctx, idx| {
@@ -389,6 +471,29 @@ pub fn run(ctx: &mut Ctx) {
         }
         if ctx.wants_sample() {
             ctx.sample(json!({"family": "volume", "parser": name, "buffer_len": buf.len(), "records": ln, "tail": tail_kind}));
+        }
+    });
+
+    // ------------------------------------------------ very many minimal records: 65535, 65536, 65537, 70000, 131073 in one buffer
+    ctx.floor("many-tiny.cases", 10);
+    ctx.sweep("many-tiny-records", 10, |ctx, idx| {
+        let n = [65535usize, 65536, 65537, 70000, 131073][(idx % 5) as usize];
+        let dtls = idx >= 5;
+        let one: Vec<u8> = if dtls { vec![0x14, 0xfe, 0xfd, 0, 0, 0, 0, 0, 0, 0, 0, 0, 1, 1] } else { vec![0x14, 3, 3, 0, 1, 1] };
+        let mut buf = Vec::with_capacity(n * one.len() + 3);
+        for _ in 0..n {
+            buf.extend_from_slice(&one);
+        }
+        buf.extend_from_slice(&[0x16, 3, 3]); // an incomplete header as tail
+        ctx.eval();
+        ctx.count("many-tiny.cases");
+        ctx.shape(&("many-tiny", dtls, n));
+        let got = if dtls { parse_dtls_plaintext_records(&buf).ok().map(|(rem, v)| (v.len(), rem.len())) } else { tls_parser_many(&buf).ok().map(|(rem, v)| (v.len(), rem.len())) };
+        if got != Some((n, 3)) {
+            ctx.violation(
+                format!("c16:{}:records-or-remainder-differ", if dtls { "parse_dtls_plaintext_records" } else { "tls_parser_many" }),
+                json!({"family": "many-tiny-records", "records_in_buffer": n, "many": format!("{:?}", got), "expected": format!("({}, 3)", n)}),
+            );
         }
     });
 
